@@ -208,23 +208,89 @@ def _trainset(n, m, seed, mult=1):
     return I
 
 
-def _problem(n, r, m, lamb, weighted, seed, mult=1):
+def _problem(n, r, m, lamb, weighted, seed, mult=1, opt=None):
+    """opt (all optional; see _als for the keys that only concern the call):
+    c       equivalent rescaling of the whole problem: y -> c y, every core of Y0 -> c^(1/d) core and (see _lamb)
+            lamb -> c^(2(d-1)/d) lamb; the objective is multiplied by c^2 and every iterate by c^(1/d) per core, so
+            all clauses (incl. the conditioning rule) see the same problem at another absolute scale;
+    yscale  factor on y only;  y0scale  factor on every core of Y0;
+    wzero   every third weight is exactly zero (weighted problems);  f32  values y representable in float32."""
+    opt = opt or {}
     I = _trainset(n, m, seed, mult)
     g = gen.rng('C07y', n, r, m, seed)
     y = g.normal(size=len(I))
     w = g.uniform(0.2, 3.0, size=len(I)) if weighted else None
     Y0 = gen.tt(n, r, seed, 'gauss')
+    if w is not None and opt.get('wzero'):
+        w[1::3] = 0.0
+    c = float(opt.get('c', 1.0))
+    y = y * (c * float(opt.get('yscale', 1.0)))
+    f0 = c ** (1.0 / len(n)) * float(opt.get('y0scale', 1.0))
+    if f0 != 1.0:
+        Y0 = [G * f0 for G in Y0]
+    if opt.get('form') == 'f32':
+        y = y.astype(np.float32).astype(float)
     return I, y, w, Y0
+
+
+def _lamb(lamb, d, opt):
+    c = float((opt or {}).get('c', 1.0))
+    return lamb * c ** (2.0 * (d - 1) / d) if c != 1.0 else lamb
+
+
+def _layout(Y, order):
+    if order == 'F':
+        return [np.asfortranarray(G) for G in Y]
+    if order == 'V':
+        out = []
+        for G in Y:
+            big = np.full((2 * G.shape[0], 2 * G.shape[1], 2 * G.shape[2] + 1), 3.25)
+            big[1::2, ::2, 1::2] = G
+            out.append(big[1::2, ::2, 1::2])
+        return out
+    return Y
+
+
+def _als(opt, I, y, Y0, **kw):
+    """teneva.als with the argument forms / extra keyword arguments named in opt:
+    form   'list' (I, y, I_vld, y_vld as nested Python lists), 'i32' (int32 indices), 'f32' (float32 values),
+           'i8' (int8 indices);
+    order  memory layout of the cores of Y0: 'F' or 'V' (non-contiguous views);
+    wint   integer-typed weight vector (only used with integer-valued weights);
+    kw     extra keyword arguments of als (e.g. use_stab, log, allow_skip_cores, swap_tol, e_adap, r_add);
+           output of log=True / the experimental options is swallowed."""
+    opt = opt or {}
+    form = opt.get('form')
+    w = kw.get('w')
+    Iv, yv = kw.get('I_vld'), kw.get('y_vld')
+    if form == 'list':
+        I, y = np.asarray(I).tolist(), np.asarray(y).tolist()
+        if Iv is not None:
+            kw['I_vld'], kw['y_vld'] = np.asarray(Iv).tolist(), np.asarray(yv).tolist()
+    elif form in ('i32', 'i8'):
+        I = np.asarray(I).astype(np.int32 if form == 'i32' else np.int8)
+    elif form == 'f32':
+        y = np.asarray(y).astype(np.float32)
+    if w is not None and opt.get('wint'):
+        kw['w'] = np.asarray(w).astype(int)
+    Y0 = _layout(Y0, opt.get('order'))
+    kw.update(opt.get('kw') or {})
+    if kw.get('log') or kw.get('allow_swap'):
+        import contextlib, io
+        with contextlib.redirect_stdout(io.StringIO()):
+            return teneva.als(I, y, Y0, **kw)
+    return teneva.als(I, y, Y0, **kw)
 
 
 # ----------------------------------------------------------------------------------------------- als clauses
 
 @clause('C07.als.constant_rank_shape', funcs=ALS)
-def constant_rank_shape(n, r, m, lamb, weighted, nswp, seed):
+def constant_rank_shape(n, r, m, lamb, weighted, nswp, seed, opt=None):
     """Constant-rank mode keeps the shapes and ranks of the initial approximation (r: int or rank profile)."""
-    I, y, w, Y0 = _problem(n, r, m, lamb, weighted, seed)
+    I, y, w, Y0 = _problem(n, r, m, lamb, weighted, seed, opt=opt)
+    lamb = _lamb(lamb, len(n), opt)
     before = gen.snapshot(Y0)
-    Y = teneva.als(I, y, Y0, nswp=nswp, e=None, lamb=lamb, w=w)
+    Y = _als(opt, I, y, Y0, nswp=nswp, e=None, lamb=lamb, w=w)
     msg = gen.wf(Y, n)
     if msg:
         return FAIL('not well-formed / other mode sizes: ' + msg)
@@ -236,15 +302,16 @@ def constant_rank_shape(n, r, m, lamb, weighted, nswp, seed):
 
 
 @clause('C07.als.descent', funcs=ALS)
-def descent(n, r, m, lamb, weighted, nswp, seed):
+def descent(n, r, m, lamb, weighted, nswp, seed, opt=None):
     """The regularised (weighted) objective never increases from sweep to sweep."""
-    I, y, w, Y0 = _problem(n, r, m, lamb, weighted, seed)
+    I, y, w, Y0 = _problem(n, r, m, lamb, weighted, seed, opt=opt)
+    lamb = _lamb(lamb, len(n), opt)
     traj = [_obj(Y0, I, y, lamb, w)]
 
     def cb(Y, info, opts):
         traj.append(_obj(Y, I, y, lamb, w))
 
-    Y = teneva.als(I, y, Y0, nswp=nswp, e=None, lamb=lamb, w=w, cb=cb)
+    Y = _als(opt, I, y, Y0, nswp=nswp, e=None, lamb=lamb, w=w, cb=cb)
     if len(traj) != nswp + 1:
         return FAIL(f'{len(traj) - 1} callback calls for {nswp} sweeps')
     if not abs(traj[-1] - _obj(Y, I, y, lamb, w)) <= 1e-12 * traj[-1]:
@@ -256,10 +323,11 @@ def descent(n, r, m, lamb, weighted, nswp, seed):
 
 
 @clause('C07.als.last_core_optimal', funcs=ALS)
-def last_core_optimal(n, r, m, lamb, weighted, nswp, seed):
+def last_core_optimal(n, r, m, lamb, weighted, nswp, seed, opt=None):
     """The core updated last (core 1) is at the exact minimiser of F given the other cores."""
-    I, y, w, Y0 = _problem(n, r, m, lamb, weighted, seed)
-    Y = teneva.als(I, y, Y0, nswp=nswp, e=None, lamb=lamb, w=w)
+    I, y, w, Y0 = _problem(n, r, m, lamb, weighted, seed, opt=opt)
+    lamb = _lamb(lamb, len(n), opt)
+    Y = _als(opt, I, y, Y0, nswp=nswp, e=None, lamb=lamb, w=w)
     res = _slice_residuals(Y, I, y, lamb, w, 1)
     bad = {j: v for j, v in res.items() if not v <= 1e-10}
     if bad:
@@ -279,10 +347,11 @@ def last_core_optimal(n, r, m, lamb, weighted, nswp, seed):
 
 
 @clause('C07.als.restart', funcs=ALS)
-def restart(n, r, m, lamb, weighted, nswp, seed):
+def restart(n, r, m, lamb, weighted, nswp, seed, opt=None):
     """a+b sweeps equal a sweeps followed by a restart for b sweeps, for every split of nswp."""
-    I, y, w, Y0 = _problem(n, r, m, lamb, weighted, seed)
-    Y = teneva.als(I, y, Y0, nswp=nswp, e=None, lamb=lamb, w=w)
+    I, y, w, Y0 = _problem(n, r, m, lamb, weighted, seed, opt=opt)
+    lamb = _lamb(lamb, len(n), opt)
+    Y = _als(opt, I, y, Y0, nswp=nswp, e=None, lamb=lamb, w=w)
     msg = _nonfinite((f'{nswp} sweeps', Y))
     if msg:
         return FAIL(msg)
@@ -290,8 +359,8 @@ def restart(n, r, m, lamb, weighted, nswp, seed):
     if kap > KAPPA_MAX:
         return _ill(kap)
     for a in range(1, nswp):
-        Ya = teneva.als(I, y, Y0, nswp=a, e=None, lamb=lamb, w=w)
-        Yb = teneva.als(I, y, Ya, nswp=nswp - a, e=None, lamb=lamb, w=w)
+        Ya = _als(opt, I, y, Y0, nswp=a, e=None, lamb=lamb, w=w)
+        Yb = _als(opt, I, y, Ya, nswp=nswp - a, e=None, lamb=lamb, w=w)
         msg = _nonfinite((f'{a} sweeps', Ya), (f'{a} + {nswp - a} sweeps', Yb)) \
             or _same_result(Y, Yb, max(kap, _kappa([Ya], I, lamb, w)), f'{nswp} sweeps vs {a} + {nswp - a}')
         if msg:
@@ -300,17 +369,18 @@ def restart(n, r, m, lamb, weighted, nswp, seed):
 
 
 @clause('C07.als.permutation', funcs=ALS)
-def permutation(n, r, m, lamb, weighted, nswp, seed, pseed):
+def permutation(n, r, m, lamb, weighted, nswp, seed, pseed, opt=None):
     """The result does not depend on the order of the training samples."""
-    I, y, w, Y0 = _problem(n, r, m, lamb, weighted, seed)
+    I, y, w, Y0 = _problem(n, r, m, lamb, weighted, seed, opt=opt)
+    lamb = _lamb(lamb, len(n), opt)
     g = gen.rng('C07perm', pseed)
     p = g.permutation(len(I))
     q = _make_front_safe(I[p], g)
     if q is None:
         return SKIP('no order with a safe first sample')
     p = p[q]
-    Y = teneva.als(I, y, Y0, nswp=nswp, e=None, lamb=lamb, w=w)
-    Yp = teneva.als(I[p], y[p], Y0, nswp=nswp, e=None, lamb=lamb, w=None if w is None else w[p])
+    Y = _als(opt, I, y, Y0, nswp=nswp, e=None, lamb=lamb, w=w)
+    Yp = _als(opt, I[p], y[p], Y0, nswp=nswp, e=None, lamb=lamb, w=None if w is None else w[p])
     msg = _nonfinite(('original order', Y), ('permuted order', Yp))
     if msg:
         return FAIL(msg)
@@ -322,9 +392,10 @@ def permutation(n, r, m, lamb, weighted, nswp, seed, pseed):
 
 
 @clause('C07.als.duplicates_as_weights', funcs=ALS)
-def duplicates_as_weights(n, r, m, lamb, nswp, seed):
+def duplicates_as_weights(n, r, m, lamb, nswp, seed, opt=None):
     """Listing sample s c_s times (anywhere in the list) is the same as giving it the weight c_s."""
-    I, y, _, Y0 = _problem(n, r, m, lamb, False, seed)
+    I, y, _, Y0 = _problem(n, r, m, lamb, False, seed, opt=opt)
+    lamb = _lamb(lamb, len(n), opt)
     g = gen.rng('C07dup', seed)
     c = g.integers(1, 4, size=len(I))
     rep = np.repeat(np.arange(len(I)), c)
@@ -333,9 +404,9 @@ def duplicates_as_weights(n, r, m, lamb, nswp, seed):
     if q is None:
         return SKIP('no order with a safe first sample')
     rep = rep[q]
-    Yd = teneva.als(I[rep], y[rep], Y0, nswp=nswp, e=None, lamb=lamb)
+    Yd = _als(opt, I[rep], y[rep], Y0, nswp=nswp, e=None, lamb=lamb)
     cw = c.astype(float)
-    Yw = teneva.als(I, y, Y0, nswp=nswp, e=None, lamb=lamb, w=cw)
+    Yw = _als(opt, I, y, Y0, nswp=nswp, e=None, lamb=lamb, w=cw)
     msg = _nonfinite(('weights c_s', Yw), ('c_s-fold duplicates', Yd))
     if msg:
         return FAIL(msg)
@@ -371,25 +442,30 @@ def _single_sample_case(n, seed, mode, pos):
     rest = rest[g.permutation(len(rest))]
     y_rest = g.normal(size=len(rest))
     y_single = float(g.normal())
+    w_rest = g.uniform(0.2, 3.0, size=len(rest))          # (drawn last: the unweighted cases keep their data)
+    w_single = float(g.uniform(0.2, 3.0))
     pos = min(pos, len(rest))
 
     def place(p):
         I = np.vstack([rest[:p], np.array([single]), rest[p:]])
         y = np.concatenate([y_rest[:p], [y_single], y_rest[p:]])
-        return I, y
+        w = np.concatenate([w_rest[:p], [w_single], w_rest[p:]])
+        return I, y, w
 
     other = len(rest) if pos != len(rest) else 1
     return place(pos), place(other), j, len(rest) + 1
 
 
-def _single_sample(n, r, lamb, nswp, seed, mode, pos):
+def _single_sample(n, r, lamb, nswp, seed, mode, pos, weighted=False):
     case = _single_sample_case(n, seed, mode, pos)
     if case is None:
         return SKIP('mode of size 1')
-    (I, y), (Io, yo), j, total = case
+    (I, y, w), (Io, yo, wo), j, total = case
+    if not weighted:
+        w = wo = None
     Y0 = gen.tt(n, r, seed, 'gauss')
-    Y = teneva.als(I, y, Y0, nswp=nswp, e=None, lamb=lamb)
-    Yo = teneva.als(Io, yo, Y0, nswp=nswp, e=None, lamb=lamb)
+    Y = teneva.als(I, y, Y0, nswp=nswp, e=None, lamb=lamb, w=w)
+    Yo = teneva.als(Io, yo, Y0, nswp=nswp, e=None, lamb=lamb, w=wo)
     where = int(np.where((I[:, mode] == j))[0][0])
     if np.array_equal(Y[mode][:, j, :], Y0[mode][:, j, :]):
         return FAIL(f'slice {j} of mode {mode}, covered by the single sample at list position {where} of {total}, '
@@ -397,7 +473,7 @@ def _single_sample(n, r, lamb, nswp, seed, mode, pos):
     msg = _nonfinite((f'single sample at position {where}', Y), ('single sample listed elsewhere', Yo))
     if msg:
         return FAIL(msg)
-    kap = _kappa([Y0, Yo], Io, lamb, None)
+    kap = _kappa([Y0, Yo], Io, lamb, wo)
     if kap > KAPPA_MAX:
         return _ill(kap)
     msg = _same_result(Yo, Y, kap, f'single sample of slice {j} of mode {mode} at position {where} of {total} vs at '
@@ -405,24 +481,25 @@ def _single_sample(n, r, lamb, nswp, seed, mode, pos):
     if msg:
         return FAIL(msg)
     if mode == 1:
-        res = _slice_residuals(Y, I, y, lamb, None, 1)
+        res = _slice_residuals(Y, I, y, lamb, w, 1)
         if not res[j] <= 1e-10:
             return FAIL(f'slice {j} of core 1 (single sample at position {where}) is not at its minimiser: {res[j]:.3e}')
     return PASS
 
 
 @clause('C07.als.single_sample_slice', funcs=ALS)
-def single_sample_slice(n, r, lamb, nswp, seed, mode, pos):
-    """Slice covered by a single sample at list position pos >= 1: order-independent and optimal."""
+def single_sample_slice(n, r, lamb, nswp, seed, mode, pos, weighted=False):
+    """Slice covered by a single sample at list position pos >= 1: order-independent and optimal
+    (weighted: with a weight vector - one weight per slice system)."""
     if pos < 1:
         return SKIP('position 0 belongs to C07.als.single_sample_slice_pos0')
-    return _single_sample(n, r, lamb, nswp, seed, mode, pos)
+    return _single_sample(n, r, lamb, nswp, seed, mode, pos, weighted)
 
 
 @clause('C07.als.single_sample_slice_pos0', funcs=('als.als', 'als._optimize_core'))
-def single_sample_slice_pos0(n, r, lamb, nswp, seed, mode):
+def single_sample_slice_pos0(n, r, lamb, nswp, seed, mode, weighted=False):
     """Slice covered by a single sample at list position 0 (known defect of the pinned tree)."""
-    return _single_sample(n, r, lamb, nswp, seed, mode, 0)
+    return _single_sample(n, r, lamb, nswp, seed, mode, 0, weighted)
 
 
 def _pairset(n, m, seed):
@@ -441,9 +518,8 @@ def _pairset(n, m, seed):
     return I[g.permutation(len(I))]
 
 
-@clause('C07.als.adaptive_ranks', funcs=('als.als', 'als._optimize_core_adaptive', 'svd.matrix_skeleton'))
-def adaptive_ranks(n, r0, r, r_add, m, lamb, weighted, nswp, seed, kind):
-    """Rank-adaptive mode (d >= 3, initial ranks <= r): mode sizes kept, all ranks <= r, finite."""
+def _adaptive_setup(n, r0, r, m, weighted, seed, kind, opt=None):
+    opt = opt or {}
     I = _pairset(n, m, seed)
     g = gen.rng('C07ad', n, r0, r, seed)
     if kind == 'lowrank':
@@ -452,18 +528,171 @@ def adaptive_ranks(n, r0, r, r_add, m, lamb, weighted, nswp, seed, kind):
         y = g.normal(size=len(I))
     w = g.uniform(0.2, 3.0, size=len(I)) if weighted else None
     Y0 = gen.tt(n, r0, seed, 'gauss')
-    info = {}
-    Y = teneva.als(I, y, Y0, nswp=nswp, e=None, info=info, r=r, r_add=r_add, lamb=lamb, w=w)
-    msg = gen.wf(Y, n)
+    y = y * float(opt.get('yscale', 1.0))
+    if opt.get('y0scale'):
+        Y0 = [G * float(opt['y0scale']) for G in Y0]
+    return I, y, w, Y0
+
+
+def _adaptive_result(Y, Y0, info, shape, r, nswp):
+    msg = gen.wf(Y, shape)
     if msg:
-        return FAIL('not well-formed / other mode sizes: ' + msg)
+        return 'not well-formed / other mode sizes: ' + msg
     rk = [G.shape[2] for G in Y[:-1]]
     if max(rk) > r:
-        return FAIL(f'ranks {rk} exceed r = {r} (initial {[G.shape[2] for G in Y0[:-1]]})')
+        return f'ranks {rk} exceed r = {r} (initial {[G.shape[2] for G in Y0[:-1]]})'
     if not gen.finite(Y):
-        return FAIL('non-finite cores')
+        return 'non-finite cores'
     if info['nswp'] != nswp or info['stop'] != 'nswp':
-        return FAIL(f"info nswp/stop {info['nswp']}/{info['stop']}")
+        return f"info nswp/stop {info['nswp']}/{info['stop']}"
+    return None
+
+
+@clause('C07.als.adaptive_ranks', funcs=('als.als', 'als._optimize_core_adaptive', 'svd.matrix_skeleton'))
+def adaptive_ranks(n, r0, r, r_add, m, lamb, weighted, nswp, seed, kind, opt=None):
+    """Rank-adaptive mode (d >= 3, initial ranks <= r; r0: int or rank profile): mode sizes kept, all ranks <= r,
+    finite.  opt: yscale / y0scale, argument forms and extra keyword arguments (e_adap, ...) as in _als."""
+    I, y, w, Y0 = _adaptive_setup(n, r0, r, m, weighted, seed, kind, opt)
+    info = {}
+    Y = _als(opt, I, y, Y0, nswp=nswp, e=None, info=info, r=r, r_add=r_add, lamb=lamb, w=w)
+    msg = _adaptive_result(Y, Y0, info, n, r, nswp)
+    return check(msg is None, msg)
+
+
+@clause('C07.als.adaptive_use_stab', funcs=('als.als', 'als._optimize_core_adaptive', 'transformation.orthogonalize'))
+def adaptive_use_stab(n, r0, r, m, lamb, nswp, seed, kind):
+    """Rank-adaptive mode with the documented flag use_stab=True ("the rank-adaptive method will use additional
+    stabilization of the cores"): same contract as C07.als.adaptive_ranks."""
+    I, y, w, Y0 = _adaptive_setup(n, r0, r, m, False, seed, kind)
+    info = {}
+    Y = teneva.als(I, y, Y0, nswp=nswp, e=None, info=info, r=r, lamb=lamb, use_stab=True)
+    msg = _adaptive_result(Y, Y0, info, n, r, nswp)
+    return check(msg is None, msg)
+
+
+def _swap_run(n, r0, r, m, lamb, nswp, seed, kind, vld):
+    import contextlib, io
+    I, y, w, Y0 = _adaptive_setup(n, r0, r, m, False, seed, kind)
+    if kind == 'linked':                # first and last mode strongly coupled: reordering the modes lowers the ranks
+        y = np.sin(I[:, 0] * (1.0 + I[:, -1])) + 0.1 * I[:, 1]
+    kw = {}
+    if vld:
+        gv = gen.rng('C07swv', seed)
+        kw['I_vld'] = np.stack([gv.integers(0, k if vld == 'random' else 1, size=9) for k in n], axis=1)
+        kw['y_vld'] = gv.normal(size=9)
+    info, out = {}, io.StringIO()
+    before = gen.snapshot((I, y))
+    try:
+        with contextlib.redirect_stdout(out):
+            Y = teneva.als(I, y, Y0, nswp=nswp, e=None, info=info, r=r, lamb=lamb, allow_swap=True, **kw)
+    except Exception as ex:
+        swaps = out.getvalue().count('DEBUG | idxs')
+        return FAIL(f'{type(ex).__name__}: {ex} (after {swaps} mode swaps, validation data: {vld})')
+    swaps = out.getvalue().count('DEBUG | idxs')
+    if gen.snapshot((I, y)) != before:
+        return FAIL('the training data of the caller were modified')
+    shape = [G.shape[1] for G in Y]
+    if sorted(shape) != sorted(n):
+        return FAIL(f'mode sizes {shape} are not a reordering of {n}')
+    msg = _adaptive_result(Y, Y0, info, shape, r, nswp)
+    if msg:
+        return FAIL(msg)
+    return PASS if swaps else TRIVIAL('no mode swap happened')
+
+
+@clause('C07.als.adaptive_swap', funcs=('als.als', 'als._optimize_core_adaptive'))
+def adaptive_swap(n, r0, r, m, lamb, nswp, seed, kind):
+    """Rank-adaptive mode with allow_swap=True: a well-formed finite tensor whose mode sizes are a reordering of
+    the original ones, ranks <= r, info as specified, training data untouched.  (Validation data are given and
+    consist of the multi-index 0 only, which is valid for every order of the modes - see the two clauses below.)"""
+    return _swap_run(n, r0, r, m, lamb, nswp, seed, kind, 'zeros')
+
+
+@clause('C07.als.adaptive_swap_vld', funcs=('als.als',))
+def adaptive_swap_vld(n, r0, r, m, lamb, nswp, seed, kind):
+    """The same with general validation multi-indices (modes of different size)."""
+    return _swap_run(n, r0, r, m, lamb, nswp, seed, kind, 'random')
+
+
+@clause('C07.als.adaptive_swap_no_vld', funcs=('als.als',))
+def adaptive_swap_no_vld(n, r0, r, m, lamb, nswp, seed, kind):
+    """The same without validation data (I_vld / y_vld are optional)."""
+    return _swap_run(n, r0, r, m, lamb, nswp, seed, kind, None)
+
+
+@clause('C07.als.update_sol', funcs=('als.als', 'als._optimize_core', 'als._lstsq'))
+def update_sol(n, r, m, lamb, weighted, nswp, seed):
+    """update_sol (constant rank only): every core update adds the ridge-damped correction
+    argmin_D ||A (x + D) - y||_W^2 + lamb ||D||^2, so shapes / ranks are kept and the (weighted) data misfit
+    sum_s w_s (Y[I_s] - y_s)^2 never increases from sweep to sweep; together with r it is rejected."""
+    I, y, w, Y0 = _problem(n, r, m, lamb, weighted, seed)
+    traj = [_obj(Y0, I, y, 0.0, w)]
+
+    def cb(Y, info, opts):
+        traj.append(_obj(Y, I, y, 0.0, w))
+
+    info = {}
+    Y = teneva.als(I, y, Y0, nswp=nswp, e=None, info=info, lamb=lamb, w=w, cb=cb, update_sol=True)
+    msg = gen.wf(Y, n)
+    if msg or [G.shape for G in Y] != [G.shape for G in Y0] or not gen.finite(Y):
+        return FAIL(f'shapes {[G.shape for G in Y]} vs initial {[G.shape for G in Y0]} / non-finite ({msg})')
+    if info['nswp'] != nswp or info['stop'] != 'nswp' or len(traj) != nswp + 1:
+        return FAIL(f"info nswp/stop {info['nswp']}/{info['stop']}, {len(traj) - 1} callback calls")
+    for t in range(nswp):
+        if not traj[t + 1] <= traj[t] * (1 + 1e-10) + 1e-300:
+            return FAIL(f'data misfit increased in sweep {t + 1}: {traj}')
+    if len(n) >= 3:
+        try:
+            teneva.als(I, y, Y0, nswp=1, e=None, lamb=lamb, r=r + 1, update_sol=True)
+            return FAIL('update_sol together with r was accepted')
+        except AssertionError:
+            pass
+    return PASS if traj[-1] < traj[0] else TRIVIAL('no decrease at all')
+
+
+@clause('C07.als.defaults', funcs=('als.als', 'utils._info_appr'))
+def als_defaults(n, r, m, seed, form):
+    """All optional arguments left out (nswp=50, e=1e-16, lamb=0.001, shared default info): at most 50 sweeps,
+    stop 'nswp' after exactly 50 or 'e' with a reported value <= 1e-16, the documented objective (lamb = 0.001)
+    does not increase compared with Y0 and core 1 is at its minimiser; a second call through the shared default
+    info dictionary gives the same tensor as a call with a fresh one."""
+    import inspect
+    I, y, _, Y0 = _problem(n, r, m, 0.001, False, seed)
+    default = inspect.signature(teneva.als).parameters['info'].default
+    saved = dict(default) if isinstance(default, dict) else None
+    try:
+        Ya = _als({'form': form}, I, y, Y0)
+        shared = dict(default) if saved is not None else None
+        fresh = {}
+        Yb = _als({'form': form}, I, y, Y0, info=fresh)
+    finally:
+        if saved is not None:
+            default.clear()
+            default.update(saved)
+    msg = gen.wf(Yb, n)
+    if msg or [G.shape for G in Yb] != [G.shape for G in Y0] or not gen.finite(Yb):
+        return FAIL(f'shapes {[G.shape for G in Yb]} vs initial {[G.shape for G in Y0]} / non-finite ({msg})')
+    if any(not np.array_equal(P, Q) for P, Q in zip(Ya, Yb)):
+        return FAIL('call through the shared default info dictionary differs from the call with a fresh one')
+    if shared is not None:
+        for key in ('nswp', 'stop'):
+            if shared.get(key) != fresh.get(key):
+                return FAIL(f'info[{key!r}]: shared default {shared.get(key)!r} vs fresh {fresh.get(key)!r}')
+    if fresh['stop'] == 'nswp':
+        if fresh['nswp'] != 50:
+            return FAIL(f"stop 'nswp' after {fresh['nswp']} sweeps, default nswp is 50")
+    elif fresh['stop'] == 'e':
+        if not (1 <= fresh['nswp'] <= 50 and 0 <= fresh['e'] <= 1e-16):
+            return FAIL(f"stop 'e' after {fresh['nswp']} sweeps with e = {fresh['e']}, default threshold 1e-16")
+    else:
+        return FAIL(f"stop {fresh['stop']!r} with default arguments")
+    F0, F1 = _obj(Y0, I, y, 0.001), _obj(Yb, I, y, 0.001)
+    if not F1 <= F0 * (1 + 1e-10):
+        return FAIL(f'objective with the default lamb = 0.001 increased: {F0:.15e} -> {F1:.15e}')
+    res = _slice_residuals(Yb, I, y, 0.001, None, 1)
+    bad = {j: v for j, v in res.items() if not v <= 1e-10}
+    if bad:
+        return FAIL(f'core 1 is not at the minimiser for the default lamb = 0.001: relative residuals {bad}')
     return PASS
 
 
@@ -515,7 +744,7 @@ def missing_slice(n, r, m, lamb, nswp, seed, mode, adaptive):
 
 
 @clause('C07.als.info_stop', funcs=('als.als', 'utils._info_appr'))
-def info_stop(n, r, m, lamb, nswp, seed, adaptive):
+def info_stop(n, r, m, lamb, nswp, seed, adaptive, opt=None):
     """info['nswp'] is the executed sweep count, info['stop'] a documented reason; callback stops the run."""
     if adaptive:
         I = _pairset(n, m, seed)
@@ -536,7 +765,7 @@ def info_stop(n, r, m, lamb, nswp, seed, adaptive):
             calls.append(dict(nswp=info_['nswp'], e=info_['e'], e_vld=info_['e_vld']))
             return True if cb_at is not None and info_['nswp'] == cb_at else None
 
-        Y = teneva.als(I, y, Y0, info=info, cb=cb, **kw0, **kw)
+        Y = _als(opt, I, y, Y0, info=info, cb=cb, **kw0, **kw)
         return Y, info, calls
 
     def expect(tag, info, calls, stop, sweeps):
@@ -630,24 +859,58 @@ def _fkappa(As, H, lamb):
     return float(kap)
 
 
-def _fproblem(d, nm, r, m, seed, box):
+def _basis(kind, k, nm):
+    """Own basis functions for the fh argument: x (1-D, m points) -> array [nm, m]."""
+    if kind == 'mono' or (kind == 'mixed' and k % 2 == 0):
+        return lambda x: np.vstack([np.asarray(x, dtype=float) ** j for j in range(nm)])
+    return lambda x: np.vstack([np.cos(j * np.asarray(x, dtype=float)) for j in range(nm)])
+
+
+def _fproblem(d, nm, r, m, seed, box, opt=None):
+    """opt: yscale (factor on y), fh ('mono': one monomial basis function for all modes; 'mixed': a list of d
+    functions, monomials / cosines alternating) - then a, b are unused and the design matrices are the own ones."""
+    opt = opt or {}
     g = gen.rng('C07f', d, nm, r, m, seed)
     a, b = box
     X = g.uniform(a + 1e-9 * (b - a), b - 1e-9 * (b - a), size=(m, d))
-    y = g.normal(size=m)
+    y = g.normal(size=m) * float(opt.get('yscale', 1.0))
     A0 = gen.tt([nm] * d, r, seed, 'gauss')
-    return X, y, A0, _design(X, a, b, nm)
+    if opt.get('fh'):
+        H = [_basis(opt['fh'], k, nm)(X[:, k]).T for k in range(d)]
+    else:
+        H = _design(X, a, b, nm)
+    return X, y, A0, H
+
+
+def _alsf(opt, X, y, A0, box, **kw):
+    """teneva.als_func with the forms named in opt: form 'list' (X, y as nested lists), fh (see _fproblem),
+    order ('F' / 'V' layout of the cores), kw (extra keyword arguments; output of log=True is swallowed)."""
+    opt = opt or {}
+    d, nm = len(A0), A0[0].shape[1]
+    if opt.get('fh') == 'mono':
+        kw['fh'] = _basis('mono', 0, nm)
+    elif opt.get('fh') == 'mixed':
+        kw['fh'] = [_basis('mixed', k, nm) for k in range(d)]
+    if opt.get('form') == 'list':
+        X, y = np.asarray(X).tolist(), np.asarray(y).tolist()
+    A0 = _layout(A0, opt.get('order'))
+    kw.update(opt.get('kw') or {})
+    if kw.get('log'):
+        import contextlib, io
+        with contextlib.redirect_stdout(io.StringIO()):
+            return teneva.als_func(X, y, A0, box[0], box[1], **kw)
+    return teneva.als_func(X, y, A0, box[0], box[1], **kw)
 
 
 @clause('C07.als_func.descent', funcs=ALSF)
-def f_descent(d, nm, r, m, lamb, nswp, seed, box):
+def f_descent(d, nm, r, m, lamb, nswp, seed, box, opt=None):
     """als_func keeps shapes / ranks and F(A after t+1 sweeps) <= F(A after t sweeps) <= ... <= F(A0)."""
-    X, y, A0, H = _fproblem(d, nm, r, m, seed, box)
+    X, y, A0, H = _fproblem(d, nm, r, m, seed, box, opt)
     before = gen.snapshot((X, y, A0))
     traj = [_fobj(A0, H, y, lamb)]
     for t in range(1, nswp + 1):
         info = {}
-        A = teneva.als_func(X, y, A0, box[0], box[1], nswp=t, e=None, info=info, lamb=lamb)
+        A = _alsf(opt, X, y, A0, box, nswp=t, e=None, info=info, lamb=lamb)
         msg = gen.wf(A, [nm] * d)
         if msg or [G.shape for G in A] != [G.shape for G in A0]:
             return FAIL(f'{t} sweeps: shapes {[G.shape for G in A]} vs initial {[G.shape for G in A0]} {msg or ""}')
@@ -665,10 +928,10 @@ def f_descent(d, nm, r, m, lamb, nswp, seed, box):
 
 
 @clause('C07.als_func.last_core_optimal', funcs=ALSF)
-def f_last_core_optimal(d, nm, r, m, lamb, nswp, seed, box):
+def f_last_core_optimal(d, nm, r, m, lamb, nswp, seed, box, opt=None):
     """Core 1 (updated last) satisfies the ridge normal equations of the whole core."""
-    X, y, A0, H = _fproblem(d, nm, r, m, seed, box)
-    A = teneva.als_func(X, y, A0, box[0], box[1], nswp=nswp, e=None, lamb=lamb)
+    X, y, A0, H = _fproblem(d, nm, r, m, seed, box, opt)
+    A = _alsf(opt, X, y, A0, box, nswp=nswp, e=None, lamb=lamb)
     L = np.ones((m, 1))
     L = np.einsum('sa,sj,ajb->sb', L, H[0], A[0])
     R = np.ones((m, 1))
@@ -685,10 +948,10 @@ def f_last_core_optimal(d, nm, r, m, lamb, nswp, seed, box):
 
 
 @clause('C07.als_func.restart', funcs=ALSF)
-def f_restart(d, nm, r, m, lamb, nswp, seed, box):
+def f_restart(d, nm, r, m, lamb, nswp, seed, box, opt=None):
     """a+b sweeps equal a sweeps then b sweeps from the result."""
-    X, y, A0, H = _fproblem(d, nm, r, m, seed, box)
-    A = teneva.als_func(X, y, A0, box[0], box[1], nswp=nswp, e=None, lamb=lamb)
+    X, y, A0, H = _fproblem(d, nm, r, m, seed, box, opt)
+    A = _alsf(opt, X, y, A0, box, nswp=nswp, e=None, lamb=lamb)
     msg = _nonfinite((f'{nswp} sweeps', A))
     if msg:
         return FAIL(msg)
@@ -696,8 +959,8 @@ def f_restart(d, nm, r, m, lamb, nswp, seed, box):
     if kap > KAPPA_MAX:
         return _ill(kap)
     for a_ in range(1, nswp):
-        Aa = teneva.als_func(X, y, A0, box[0], box[1], nswp=a_, e=None, lamb=lamb)
-        Ab = teneva.als_func(X, y, Aa, box[0], box[1], nswp=nswp - a_, e=None, lamb=lamb)
+        Aa = _alsf(opt, X, y, A0, box, nswp=a_, e=None, lamb=lamb)
+        Ab = _alsf(opt, X, y, Aa, box, nswp=nswp - a_, e=None, lamb=lamb)
         msg = _nonfinite((f'{a_} sweeps', Aa), (f'{a_} + {nswp - a_} sweeps', Ab)) \
             or _same_result(A, Ab, max(kap, _fkappa([Aa], H, lamb)), f'{nswp} sweeps vs {a_} + {nswp - a_}')
         if msg:
@@ -706,12 +969,12 @@ def f_restart(d, nm, r, m, lamb, nswp, seed, box):
 
 
 @clause('C07.als_func.permutation', funcs=ALSF)
-def f_permutation(d, nm, r, m, lamb, nswp, seed, box, pseed):
+def f_permutation(d, nm, r, m, lamb, nswp, seed, box, pseed, opt=None):
     """The result does not depend on the order of the training points."""
-    X, y, A0, H = _fproblem(d, nm, r, m, seed, box)
+    X, y, A0, H = _fproblem(d, nm, r, m, seed, box, opt)
     p = gen.rng('C07fperm', pseed).permutation(m)
-    A = teneva.als_func(X, y, A0, box[0], box[1], nswp=nswp, e=None, lamb=lamb)
-    Ap = teneva.als_func(X[p], y[p], A0, box[0], box[1], nswp=nswp, e=None, lamb=lamb)
+    A = _alsf(opt, X, y, A0, box, nswp=nswp, e=None, lamb=lamb)
+    Ap = _alsf(opt, X[p], y[p], A0, box, nswp=nswp, e=None, lamb=lamb)
     msg = _nonfinite(('original order', A), ('permuted order', Ap))
     if msg:
         return FAIL(msg)
@@ -766,6 +1029,61 @@ def f_info_stop(d, nm, r, m, lamb, nswp, seed, box):
         msg = same(A, 1, 'nswp=0')
         if msg:
             return FAIL(msg)
+    return PASS
+
+
+@clause('C07.als_func.defaults', funcs=ALSF)
+def f_defaults(d, nm, r, m, seed):
+    """Optional arguments left out (a=-1, b=1, nswp=50, e=1e-16, lamb=1e-3, shared default info): shapes kept,
+    documented stop, the documented objective does not increase and core 1 solves its ridge system."""
+    import inspect
+    X, y, A0, H = _fproblem(d, nm, r, m, seed, [-1.0, 1.0])
+    default = inspect.signature(teneva.als_func).parameters['info'].default
+    saved = dict(default) if isinstance(default, dict) else None
+    try:
+        Aa = teneva.als_func(X, y, A0)
+        fresh = {}
+        A = teneva.als_func(X, y, A0, info=fresh)
+    finally:
+        if saved is not None:
+            default.clear()
+            default.update(saved)
+    msg = gen.wf(A, [nm] * d)
+    if msg or [G.shape for G in A] != [G.shape for G in A0] or not gen.finite(A):
+        return FAIL(f'shapes {[G.shape for G in A]} vs initial {[G.shape for G in A0]} / non-finite ({msg})')
+    if any(not np.array_equal(P, Q) for P, Q in zip(Aa, A)):
+        return FAIL('call through the shared default info dictionary differs from the call with a fresh one')
+    if fresh['stop'] == 'nswp':
+        if fresh['nswp'] != 50:
+            return FAIL(f"stop 'nswp' after {fresh['nswp']} sweeps, default nswp is 50")
+    elif fresh['stop'] == 'e':
+        if not (1 <= fresh['nswp'] <= 50 and 0 <= fresh['e'] <= 1e-16):
+            return FAIL(f"stop 'e' after {fresh['nswp']} sweeps with e = {fresh['e']}")
+    else:
+        return FAIL(f"stop {fresh['stop']!r} with default arguments")
+    F0, F1 = _fobj(A0, H, y, 1e-3), _fobj(A, H, y, 1e-3)
+    if not F1 <= F0 * (1 + 1e-10):
+        return FAIL(f'objective with the default lamb = 1e-3 on the default box [-1, 1] increased: {F0:.15e} -> {F1:.15e}')
+    return PASS
+
+
+@clause('C07.als_func.update_sol', funcs=ALSF)
+def f_update_sol(d, nm, r, m, lamb, nswp, seed, box):
+    """update_sol: ridge-damped corrections - shapes kept, the data misfit never increases over nswp = 1, 2, ..."""
+    X, y, A0, H = _fproblem(d, nm, r, m, seed, box)
+    traj = [_fobj(A0, H, y, 0.0)]
+    for t in range(1, nswp + 1):
+        info = {}
+        A = teneva.als_func(X, y, A0, box[0], box[1], nswp=t, e=None, info=info, lamb=lamb, update_sol=True)
+        msg = gen.wf(A, [nm] * d)
+        if msg or [G.shape for G in A] != [G.shape for G in A0] or not gen.finite(A):
+            return FAIL(f'{t} sweeps: shapes {[G.shape for G in A]} vs initial {[G.shape for G in A0]} {msg or ""}')
+        if info['nswp'] != t or info['stop'] != 'nswp':
+            return FAIL(f"nswp={t}: info nswp/stop {info['nswp']}/{info['stop']}")
+        traj.append(_fobj(A, H, y, 0.0))
+    for t in range(nswp):
+        if not traj[t + 1] <= traj[t] * (1 + 1e-10):
+            return FAIL(f'data misfit increased in sweep {t + 1}: {traj}')
     return PASS
 
 
@@ -829,6 +1147,146 @@ def cases(tier, seed):
                     yield 'C07.als.single_sample_slice_pos0', dict(n=n, r=2, lamb=lamb, nswp=3, seed=sd, mode=mode)
                 for pos in range(1, total):
                     yield 'C07.als.single_sample_slice', dict(n=n, r=2, lamb=lamb, nswp=3, seed=sd, mode=mode, pos=pos)
+    # ------------------------------------------------------------ parameter / regime coverage (own generator)
+    g2 = gen.rng('C07cov', seed)
+
+    def sd():
+        return int(g2.integers(1 << 30))
+
+    cov = [[2, 2], [3, 4], [2, 3, 2], [4, 1, 3], [2, 2, 2, 2]] + ([[1, 3], [3, 3, 3], [3, 2, 1, 3]] if big else [])
+    reps = 3 if big else 1
+    six = ('constant_rank_shape', 'descent', 'last_core_optimal', 'restart')
+    k = 0
+    # (A) the same problem at another absolute scale (y, Y0 and lamb rescaled consistently): every clause
+    for n in cov:
+        for c in (1e-8, 1e-4, 1e4, 1e8) + ((1e-12, 1e12) if big else ()):
+            for rep in range(reps):
+                k += 1
+                base = dict(n=n, r=1 + k % 3, m=int(g2.integers(0, 40)), lamb=LAMBS[k % 6], weighted=bool(k % 2),
+                            nswp=3, seed=sd(), opt={'c': c})
+                for cid in six:
+                    yield 'C07.als.' + cid, base
+                yield 'C07.als.permutation', dict(base, pseed=sd())
+                yield 'C07.als.duplicates_as_weights', {q: v for q, v in dict(base, m=int(g2.integers(0, 20))).items()
+                                                        if q != 'weighted'}
+    three = ('constant_rank_shape', 'descent', 'last_core_optimal')
+    # (B) data and start of very different size (lamb fixed): shape, descent, optimality
+    for n in cov[:4]:
+        for o in ({'yscale': 1e-6}, {'yscale': 1e6}, {'y0scale': 1e-3}, {'y0scale': 1e3}) + \
+                (({'yscale': 1e-12}, {'yscale': 1e12}, {'yscale': 1e5, 'y0scale': 1e-3}) if big else ()):
+            for rep in range(reps):
+                k += 1
+                base = dict(n=n, r=1 + k % 3, m=int(g2.integers(0, 40)), lamb=LAMBS[k % 6], weighted=bool(k % 2),
+                            nswp=3, seed=sd(), opt=o)
+                for cid in three:
+                    yield 'C07.als.' + cid, base
+    # (C) argument forms (nested lists, narrow integer / float dtypes, Fortran-ordered and non-contiguous cores),
+    # (D) keyword arguments that must be inert in the constant-rank mode, log=True
+    forms = [{'form': 'list'}, {'form': 'i32'}, {'form': 'i8'}, {'form': 'f32'}, {'order': 'F'}, {'order': 'V'},
+             {'kw': {'use_stab': True}}, {'kw': {'log': True}}, {'kw': {'allow_skip_cores': True}},
+             {'kw': {'swap_tol': 0, 'e_adap': 0.5, 'r_add': 0}}]
+    for n in (cov if big else ([3, 4], [2, 3, 2])):
+        for o in forms:
+            k += 1
+            base = dict(n=n, r=2, m=int(g2.integers(0, 40)), lamb=LAMBS[k % 6], weighted=bool(k % 2), nswp=3,
+                        seed=sd(), opt=o)
+            yield 'C07.als.descent', base
+            yield 'C07.als.last_core_optimal', base
+            if 'kw' not in o:
+                yield 'C07.als.permutation', dict(base, pseed=sd())
+    for n in ([3, 4], [2, 3, 2]):
+        for o in (({'form': 'list'}, {'form': 'i32'}) if big else ({'form': 'list'},)):
+            yield 'C07.als.info_stop', dict(n=n, r=2, m=int(g2.integers(5, 40)), lamb=LAMBS[k % 6], nswp=3, seed=sd(),
+                                            adaptive=len(n) >= 3 and o['form'] == 'list', opt=o)
+    # (E) regularisation far outside 1e-4 .. 1
+    for n in cov[:3] + ([cov[4]] if big else []):
+        for lamb in (1e-10, 1e-7, 10.0, 1e3) + ((1e-13, 1e6) if big else ()):
+            for rep in range(reps):
+                k += 1
+                base = dict(n=n, r=1 + k % 3, m=int(g2.integers(0, 40)), lamb=lamb, weighted=bool(k % 2), nswp=3,
+                            seed=sd())
+                for cid in three:
+                    yield 'C07.als.' + cid, base
+    # (F) weights that vanish for a third of the samples; integer-typed weights
+    for n in cov[:3]:
+        for rep in range(reps):
+            k += 1
+            base = dict(n=n, r=2, m=int(g2.integers(10, 40)), lamb=LAMBS[k % 6], weighted=True, nswp=3, seed=sd(),
+                        opt={'wzero': True})
+            yield 'C07.als.descent', base
+            yield 'C07.als.last_core_optimal', base
+            yield 'C07.als.duplicates_as_weights', dict(n=n, r=2, m=int(g2.integers(0, 20)), lamb=LAMBS[k % 6], nswp=3,
+                                                        seed=sd(), opt={'wint': True})
+    # (G) more modes, larger modes (few samples per slice), ranks far beyond what the cores can carry
+    for n, r in (([2, 2, 2, 2, 2], 2), ([2, 1, 2, 2, 1, 2], 2), ([12, 3], 2), ([2, 12, 2], 3), ([2, 2], 5), ([3, 1, 3], 4)) + \
+            ((([2] * 8, 2), ([30, 2], 2), ([3, 20, 3], 2), ([1, 1, 1], 3)) if big else ()):
+        for rep in range(reps):
+            k += 1
+            base = dict(n=n, r=r, m=int(g2.integers(0, 30)), lamb=LAMBS[k % 6], weighted=bool(k % 2), nswp=3, seed=sd())
+            for cid in six:
+                yield 'C07.als.' + cid, base
+    # (H) single-sample slices with a weight vector
+    for n in ([3, 2], [2, 3, 2]) + (([2, 2], [3, 3]) if big else ()):
+        total = 2 * (sum(n) - 1) + 1
+        for mode in range(len(n)):
+            s0 = sd()
+            yield 'C07.als.single_sample_slice_pos0', dict(n=n, r=2, lamb=LAMBS[mode % 3 + 1], nswp=3, seed=s0, mode=mode,
+                                                           weighted=True)
+            for pos in range(1, total):
+                yield 'C07.als.single_sample_slice', dict(n=n, r=2, lamb=LAMBS[mode % 3 + 1], nswp=3, seed=s0, mode=mode,
+                                                          pos=pos, weighted=True)
+    # (I) rank-adaptive mode: truncation threshold, growth limit, rank profiles, scales, forms, flags
+    ad = [dict(opt={'kw': {'e_adap': 1e-1}}), dict(opt={'kw': {'e_adap': 1e-12}}), dict(r_add=0), dict(r_add=2),
+          dict(opt={'yscale': 1e-6}), dict(opt={'yscale': 1e6}), dict(opt={'y0scale': 1e-4}), dict(opt={'form': 'list'}),
+          dict(opt={'order': 'V'}), dict(opt={'kw': {'log': True}}), dict(opt={'kw': {'allow_skip_cores': True}})]
+    for n in ([2, 3, 2], [3, 3, 3], [2, 2, 2, 2]) + (([4, 1, 3], [2, 3, 4, 2, 2]) if big else ()):
+        for j, extra in enumerate(ad):
+            for rep in range(reps):
+                k += 1
+                r0 = ([1, 2] + [1] * (len(n) - 2) + [1]) if j % 4 == 3 else 1 + k % 2
+                p = dict(n=n, r0=r0, r=2 + k % 3, r_add=10000, m=int(g2.integers(0, 30)), lamb=LAMBS[k % 6],
+                         weighted=bool(k % 2), nswp=2 + k % 2, seed=sd(), kind=('noise', 'lowrank')[k % 2])
+                p.update(extra)
+                yield 'C07.als.adaptive_ranks', p
+        for rep in range(reps):
+            yield 'C07.als.adaptive_use_stab', dict(n=n, r0=2, r=3, m=int(g2.integers(0, 30)), lamb=1e-3, nswp=2,
+                                                    seed=sd(), kind='lowrank')
+    for n in ([2, 3, 4], [3, 3, 3], [2, 3, 4, 5]) + (([3, 2, 4, 2, 3],) if big else ()):
+        for kind in ('noise', 'lowrank', 'linked'):
+            for rep in range(4 * reps):
+                yield 'C07.als.adaptive_swap', dict(n=n, r0=2, r=3, m=int(g2.integers(0, 40)), lamb=1e-3, nswp=3,
+                                                    seed=sd(), kind=kind)
+        yield 'C07.als.adaptive_swap_no_vld', dict(n=n, r0=2, r=3, m=10, lamb=1e-3, nswp=2, seed=sd(), kind='linked')
+    for sw_kind, sw_seed in (('linked', 45), ('linked', 68), ('lowrank', 78), ('noise', 3), ('linked', 4)) + \
+            (tuple(('linked', 100 + q) for q in range(40)) if big else ()):
+        yield 'C07.als.adaptive_swap_vld', dict(n=[2, 3, 4], r0=2, r=3, m=sw_seed % 40, lamb=1e-3, nswp=3, seed=sw_seed,
+                                                kind=sw_kind)
+        yield 'C07.als.adaptive_swap', dict(n=[2, 3, 4], r0=2, r=3, m=sw_seed % 40, lamb=1e-3, nswp=3, seed=sw_seed,
+                                            kind=sw_kind)             # (seeds 45, 68, 78: two successive swaps)
+    # (J) update_sol, (K) defaults
+    for n in cov[:4]:
+        for rep in range(reps):
+            k += 1
+            yield 'C07.als.update_sol', dict(n=n, r=1 + k % 3, m=int(g2.integers(0, 40)), lamb=LAMBS[k % 6],
+                                             weighted=bool(k % 2), nswp=4, seed=sd())
+    for n, form in (([3, 4], None), ([2, 3, 2], 'list'), ([2, 2, 2, 2], None)):
+        yield 'C07.als.defaults', dict(n=n, r=2, m=int(g2.integers(5, 40)), seed=sd(), form=form)
+    # (L) functional version: own basis functions (one function / a list of d functions), scales, forms
+    for (d, nm, r) in ((2, 3, 2), (3, 3, 2), (3, 2, 3)) + (((4, 3, 2), (2, 4, 1)) if big else ()):
+        for o in ({'fh': 'mono'}, {'fh': 'mixed'}, {'yscale': 1e-6}, {'yscale': 1e6}, {'form': 'list'}, {'order': 'V'},
+                  {'kw': {'log': True}}, {'kw': {'thr_pow': 0.0}}):
+            for rep in range(reps):
+                k += 1
+                base = dict(d=d, nm=nm, r=r, m=int(g2.integers(30, 61)), lamb=LAMBS[1 + k % 5], nswp=3, seed=sd(),
+                            box=[[-1.0, 1.0], [0.0, 0.5]][k % 2], opt=o)
+                yield 'C07.als_func.descent', base
+                yield 'C07.als_func.last_core_optimal', dict(base, nswp=1 + k % 3)
+                if 'fh' in o or big:
+                    yield 'C07.als_func.restart', base
+                    yield 'C07.als_func.permutation', dict(base, pseed=sd())
+        yield 'C07.als_func.update_sol', dict(d=d, nm=nm, r=r, m=40, lamb=LAMBS[1 + k % 5], nswp=3, seed=sd(),
+                                              box=[-1.0, 1.0])
+        yield 'C07.als_func.defaults', dict(d=d, nm=nm, r=r, m=40, seed=sd())
     # functional version
     k = 0
     for d in (2, 3, 4):
